@@ -494,7 +494,7 @@ func ruleTimeoutClamp(r *Run) {
 		r.missing("funcs decodeTimeout / timeoutUnit")
 		return
 	}
-	units, _, err := switchConstTable(p.Lark, fd)
+	units, _, err := p.byteFuncTable("timeoutUnit", fd)
 	if err != nil {
 		r.undecided("decodeTimeout/overflow", fn.Pos(), "unit table not evaluable: %v", err)
 		return
